@@ -297,13 +297,56 @@ fn steps_of(req: &UserReq) -> usize {
     match req {
         UserReq::Command(true, _) => 2,
         UserReq::TimeSync(0) | UserReq::TimeSync(1) => 2,
+        // open, first block, last block, close (the reader's terminal callback precedes the CLOSE)
+        UserReq::ReadFile(_) => 4,
         _ => 1,
     }
 }
 
 fn faithful_reply(rq: &[u8]) -> Vec<u8> {
     let seq = rq[0] & 15;
+    let le32 = |b: &[u8]| u32::from_le_bytes([b[0], b[1], b[2], b[3]]);
+    let free = |v: u8, obj: Vec<u8>| {
+        let mut b = vec![70, v, 0x5B, 1];
+        b.extend_from_slice(&(obj.len() as u16).to_le_bytes());
+        b.extend(obj);
+        b
+    };
+    let status = |handle: u32, size: u32, max_block: u16| {
+        let mut o = vec![];
+        o.extend_from_slice(&handle.to_le_bytes());
+        o.extend_from_slice(&size.to_le_bytes());
+        o.extend_from_slice(&max_block.to_le_bytes());
+        o.extend_from_slice(&0u16.to_le_bytes());
+        o.push(0); // success
+        o
+    };
     let body: Vec<u8> = match rq[1] {
+        // file transfer: OPEN, READ of g70v5 blocks (two blocks, the second one is the last), CLOSE, GET_FILE_INFO
+        25 => free(4, status(0x0102_0304, 10, 64)),
+        26 => free(4, status(0x0102_0304, 0, 0)),
+        ra::F_READ if rq.len() >= 16 && rq[2] == 70 && rq[3] == 5 => {
+            let handle = le32(&rq[8..12]);
+            let block = le32(&rq[12..16]) & 0x7FFF_FFFF;
+            let mut o = vec![];
+            o.extend_from_slice(&handle.to_le_bytes());
+            o.extend_from_slice(&(if block >= 1 { block | 0x8000_0000 } else { block }).to_le_bytes());
+            o.extend_from_slice(&[b'a' + block as u8; 5]);
+            free(5, o)
+        }
+        28 => {
+            let name = b"file.txt";
+            let mut o = vec![];
+            o.extend_from_slice(&20u16.to_le_bytes());
+            o.extend_from_slice(&(name.len() as u16).to_le_bytes());
+            o.extend_from_slice(&1u16.to_le_bytes());
+            o.extend_from_slice(&1234u32.to_le_bytes());
+            o.extend_from_slice(&ra::time48(1_600_000_000_000));
+            o.extend_from_slice(&0x1FFu16.to_le_bytes());
+            o.extend_from_slice(&0u16.to_le_bytes());
+            o.extend_from_slice(name);
+            free(7, o)
+        }
         ra::F_READ => ra::B { bytes: vec![] }.range8(30, 1, 0, 0, &[1, 5, 0, 0, 0]).bytes,
         ra::F_SELECT | ra::F_OPERATE | ra::F_DIRECT_OPERATE => rq[2..].to_vec(),
         ra::F_DELAY_MEASURE => ra::B { bytes: vec![] }.count8(52, 2, 1, &[0, 0]).bytes,
@@ -320,6 +363,8 @@ enum Fail {
     LinkError,
     Disable,
     RemoveAssociation,
+    /// the association is removed while the reply is in flight; the reply then arrives
+    RemoveAssociationThenReply,
     /// keep the channel busy with unrelated user messages and unsolicited traffic while the reply is lost
     ReplyLostWithChatter,
 }
@@ -339,12 +384,13 @@ async fn failure_scenario(a: &ShardArgs, idx: u64, req: UserReq, kind: &str, ste
     settle().await;
     let t_start = sim.now();
     let nsteps = steps_of(&req);
+    let mut last_request: Option<Vec<u8>> = None;
     let mut k = 0usize;
     loop {
         let rx = sim.collect();
         let reqs = requests(&rx);
         let link_req = rx.iter().any(|x| matches!(x, Rx::Link { frame, .. } if frame.ctrl & 0x4F == rl_req_status()));
-        if sim.result_of(id).is_some() {
+        if sim.result_of(id).is_some() && !(matches!(req, UserReq::ReadFile(_)) && k == 3 && step == 3) {
             break;
         }
         if reqs.is_empty() && !link_req {
@@ -352,6 +398,7 @@ async fn failure_scenario(a: &ShardArgs, idx: u64, req: UserReq, kind: &str, ste
             return;
         }
         if k == step && fail != Fail::None {
+            last_request = reqs.first().map(|x| x.3.clone());
             break;
         }
         // faithful reply
@@ -411,6 +458,16 @@ async fn failure_scenario(a: &ShardArgs, idx: u64, req: UserReq, kind: &str, ste
             settle().await;
             bound = 1;
         }
+        Fail::RemoveAssociationThenReply => {
+            let _ = sim.channel.remove_association(crate::link::EndpointAddress::try_new(OUT).unwrap()).await;
+            settle().await;
+            if let Some(rq) = last_request.as_ref() {
+                sim.send_from(OUT, &faithful_reply(rq));
+                settle().await;
+            }
+            sim.advance(t_r).await;
+            bound = t_r + 1;
+        }
         Fail::RemoveAssociation => {
             let _ = sim.channel.remove_association(crate::link::EndpointAddress::try_new(OUT).unwrap()).await;
             settle().await;
@@ -425,7 +482,18 @@ async fn failure_scenario(a: &ShardArgs, idx: u64, req: UserReq, kind: &str, ste
     match res {
         None => viol(a, idx, "no_outcome", &format!("{kind}|step{step}|{fail:?}"), format!("request unresolved {} ms after the failure (bound {bound})", sim.now() - t_fail), &hist),
         Some((_, t_done, _, text)) => {
-            if fail == Fail::None {
+            // which outcome each failure produces (evidence)
+            out::distinct(&format!("outcome/{kind}/{fail:?}/{}", text.chars().filter(|c| c.is_alphabetic() || *c == '(').take(48).collect::<String>()));
+            let trailing_step = matches!(req, UserReq::ReadFile(_)) && step == 3;
+            if trailing_step {
+                // the file was delivered completely before the CLOSE went out: whatever happens to the CLOSE, the one
+                // terminal callback was `completed`
+                if !text.starts_with("Ok") {
+                    viol(a, idx, "file_completed_then_failed", kind, format!("all blocks were delivered but the terminal callback is {text}"), &hist);
+                } else {
+                    out::count("file_close_failure_after_completion_ok", 1);
+                }
+            } else if fail == Fail::None {
                 if !text.starts_with("Ok") {
                     viol(a, idx, "faithful_exchange_failed", kind, format!("all steps answered faithfully but the result is {text}"), &hist);
                 } else {
@@ -524,9 +592,11 @@ pub fn run(a: &ShardArgs) -> Result<(), String> {
         (UserReq::WarmRestart, "warm-restart"),
         (UserReq::WriteDeadBands(vec![(1, 5)]), "dead-bands"),
         (UserReq::LinkStatus, "link-status"),
+        (UserReq::ReadFile(64), "read-file"),
+        (UserReq::GetFileInfo, "get-file-info"),
         (UserReq::EmptyResponse(ra::F_RECORD_CURRENT_TIME), "empty-response"),
     ];
-    let fails = [Fail::None, Fail::ReplyLost, Fail::ReplyLostWithChatter, Fail::LinkError, Fail::Disable, Fail::RemoveAssociation];
+    let fails = [Fail::None, Fail::ReplyLost, Fail::ReplyLostWithChatter, Fail::LinkError, Fail::Disable, Fail::RemoveAssociation, Fail::RemoveAssociationThenReply];
     let mut b_cases: Vec<(UserReq, &str, usize, Fail)> = vec![];
     for (rq, kind) in &kinds {
         for step in 0..steps_of(rq) {
